@@ -116,6 +116,21 @@ def tensor_bytes(t):
 # ----------------------------------------------------------------------------------------------
 # executing API calls described by JSON
 # ----------------------------------------------------------------------------------------------
+def _form(seq, kind):
+    """The container form in which an Iterable[Tensor] argument is handed over (list / tuple / one-shot
+    generator): part of the argument space of the API, which is typed Iterable."""
+    if kind == "tuple":
+        return tuple(seq)
+    if kind == "gen":
+        return (x for x in list(seq))
+    return list(seq)
+
+
+def gen_forms(rng, n_tasks=0):
+    pick = lambda: rng.choice(["list", "list", "list", "tuple", "gen"])  # noqa: E731
+    return {"inputs": pick(), "shared": pick(), "tasks": [pick() for _ in range(n_tasks)]}
+
+
 def run_call(world, call, record=False, agg=None):
     """Executes the real torchjd call. Returns (outcome dict, recording aggregator or None)."""
     from torchjd import backward, mtl_backward
@@ -135,7 +150,8 @@ def run_call(world, call, record=False, agg=None):
                 tensors = [t[n] for n in call["tensors"]]
                 if call.get("tensors_single") and len(tensors) == 1:
                     tensors = tensors[0]
-                inputs = None if call.get("inputs") is None else [t[n] for n in call["inputs"]]
+                forms = call.get("forms") or {}
+                inputs = None if call.get("inputs") is None else _form([t[n] for n in call["inputs"]], forms.get("inputs", "list"))
                 kwargs = {}
                 if "retain" in call:
                     kwargs["retain_graph"] = bool(call["retain"])
@@ -147,8 +163,12 @@ def run_call(world, call, record=False, agg=None):
                 features = [t[n] for n in call["features"]]
                 if call.get("features_single") and len(features) == 1:
                     features = features[0]
-                tasks = None if call.get("tasks") is None else [[t[n] for n in tp] for tp in call["tasks"]]
-                shared = None if call.get("shared") is None else [t[n] for n in call["shared"]]
+                forms = call.get("forms") or {}
+                tforms = list(forms.get("tasks", []))
+                tasks = None if call.get("tasks") is None else [
+                    _form([t[n] for n in tp], tforms[i] if i < len(tforms) else "list") for i, tp in enumerate(call["tasks"])
+                ]
+                shared = None if call.get("shared") is None else _form([t[n] for n in call["shared"]], forms.get("shared", "list"))
                 kwargs = {}
                 if "retain" in call:
                     kwargs["retain_graph"] = bool(call["retain"])
